@@ -183,3 +183,12 @@ def bentryAsList : BEntry → Except Err (List BEntry)
 def npArray (l : List BEntry) : Except Err (List BEntry) :=
   if TaskDecl.homogeneous l then .ok l else .error .valueError
 end Py
+
+/-! ## dicts (insertion-ordered, as Python's) as association lists -/
+namespace Py
+/-- `d[k] = v`: replaces the value of an existing key in place, appends a new key at the end -/
+def dictSet (d : List (String × β)) (k : String) (v : β) : List (String × β) :=
+  match d with
+  | [] => [(k, v)]
+  | (k', v') :: rest => if k' = k then (k', v) :: rest else (k', v') :: dictSet rest k v
+end Py
